@@ -395,6 +395,14 @@ int register_mod_src(m_mod_t *mod, m_src_types type, const void *src_data,
         }
         return !ret ? 0 : -errno;
     }
+    /*
+     * Registration refused (eg: -EEXIST): leave no trace.
+     * A descriptor passed by the user is not ours to close (it may well belong to the
+     * very registration we clashed with); a duplicate we made ourselves is.
+     */
+    if (!(flags & M_SRC_DUP)) {
+        src->flags &= ~M_SRC_FD_AUTOCLOSE;
+    }
     m_mem_unref(src);
     return ret;
 }
